@@ -34,27 +34,19 @@ def _norm_body(fnode, opt):
     return [ast.dump(s) for s in body]
 
 
-def run(p, report, tier):
-    report.rule("R18.1", "rand_argmax masks with equality to np.nanmax(..., keepdims=True), rand_argmin with np.nanmin; "
-                "the two bodies are identical up to that substitution; the equality mask multiplies the random noise "
-                "inside np.argmax", floor=4)
-    report.rule("R18.2", "simple_batch: batch_size is clipped to the count of non-NaN entries before either selection "
-                "mode; in max mode the row is snapshotted before the winner is masked (R2.1) and the operand depends "
-                "on earlier picks (R1.4)", floor=4)
-    report.rule("R18.3", "proportional mode: NaN probabilities are zeroed before the draw, the draw is without "
-                "replacement, returned rows mask best_indices[:i]", floor=3)
-    report.rule("R1.7", "definite assignment in the selection primitives", floor=3)
+def check_argmax_primitives(p, report, rule="R18.1"):
+    """rand_argmax / rand_argmin: exact-equality tie mask against the NaN-aware
+    optimum (keepdims), noise multiplied inside argmax, siblings identical."""
     mod = "skactiveml.utils._selection"
     fa = p.get_func(mod, "rand_argmax")
     fi = p.get_func(mod, "rand_argmin")
-    sb = p.get_func(mod, "simple_batch")
     # --- R18.1
     # a sibling that merely delegates to a shared private helper is looked at through the helper
     xa = expand_delegation(p, fa)
     xi = expand_delegation(p, fi)
     a = _norm_body(xa, "nanmax")
     b = _norm_body(xi, "nanmin")
-    report.add("R18.1", "rand_argmax/rand_argmin", "sibling bodies identical up to nanmax<->nanmin",
+    report.add(rule, "rand_argmax/rand_argmin", "sibling bodies identical up to nanmax<->nanmin",
                f"{fa.file}:{fa.node.lineno}", a == b,
                detail="identical" if a == b else "the two siblings differ in more than the optimum function")
     for f, opt, other, xn in ((fa, "nanmax", "nanmin", xa), (fi, "nanmin", "nanmax", xi)):
@@ -62,7 +54,7 @@ def run(p, report, tier):
         uses = [n for n in ast.walk(fin) if isinstance(n, ast.Attribute) and n.attr in ("nanmax", "nanmin", "max", "min",
                                                                                               "amax", "amin")]
         ok = any(u.attr == opt for u in uses) and not any(u.attr != opt for u in uses)
-        report.add("R18.1", f.qual, f"NaN-aware optimum np.{opt}", f"{f.file}:{f.node.lineno}", ok,
+        report.add(rule, f.qual, f"NaN-aware optimum np.{opt}", f"{f.file}:{f.node.lineno}", ok,
                    detail=f"uses {sorted({u.attr for u in uses})}")
         # structure: np.argmax(<noise> * (a == np.nanOPT(a, ..., keepdims=True)), ...)
         ok2 = False
@@ -78,8 +70,25 @@ def run(p, report, tier):
                             noise = oth
                             if isinstance(noise, ast.Call) and c01.callname(noise) in ("random", "random_sample", "rand", "uniform"):
                                 ok2 = True
-        report.add("R18.1", f.qual, "argmax of noise * (a == optimum(keepdims=True))", f"{f.file}:{f.node.lineno}", ok2,
+        report.add(rule, f.qual, "argmax of noise * (a == optimum(keepdims=True))", f"{f.file}:{f.node.lineno}", ok2,
                    detail="tie-breaking structure present" if ok2 else "tie-breaking structure not found")
+
+
+def run(p, report, tier):
+    report.rule("R18.1", "rand_argmax masks with equality to np.nanmax(..., keepdims=True), rand_argmin with np.nanmin; "
+                "the two bodies are identical up to that substitution; the equality mask multiplies the random noise "
+                "inside np.argmax", floor=4)
+    report.rule("R18.2", "simple_batch: batch_size is clipped to the count of non-NaN entries before either selection "
+                "mode; in max mode the row is snapshotted before the winner is masked (R2.1) and the operand depends "
+                "on earlier picks (R1.4)", floor=4)
+    report.rule("R18.3", "proportional mode: NaN probabilities are zeroed before the draw, the draw is without "
+                "replacement, returned rows mask best_indices[:i]", floor=3)
+    report.rule("R1.7", "definite assignment in the selection primitives", floor=3)
+    mod = "skactiveml.utils._selection"
+    fa = p.get_func(mod, "rand_argmax")
+    fi = p.get_func(mod, "rand_argmin")
+    sb = p.get_func(mod, "simple_batch")
+    check_argmax_primitives(p, report, "R18.1")
     # --- R18.2
     tree = FuncTree(sb.node)
     ok, why = c01.has_clip(sb.node, "batch_size", need_return=False)
